@@ -93,7 +93,8 @@ def run(prog, rep):
     # R2: absolute complements never reach a caller unbounded: every public function of the evaluation modules whose
     # value involves an absolute BDD operation (not / iff / xor / imp) returns a set bounded by its graph's unit set
     eng2 = terms.Engine(prog, inline=True, hooks=E.Hooks([E.OPS, E.LOW, E.ALG], opaque_names=[E.ALG + "eval_node", E.ALG + "compute_attractor_states",
-                        E.ALG + "compute_steady_states"] + [E.LOW + a for a in lowlevel.ANCHORS]))
+                        E.ALG + "compute_steady_states"] + [E.LOW + a for a in lowlevel.ANCHORS] +
+                        ([E.LOW + w for w in lowlevel.WRAPPERS] if prog.lib_fn(E.LOW + "create_equalizer") is None else [])))
     for f in prog.lib_fns():
         if not (f.path.startswith(E.OPS) or f.path.startswith(E.LOW) or f.path.startswith(E.ALG)):
             continue
